@@ -148,6 +148,24 @@ impl Model {
         me.dom = dom;
         me
     }
+    /// knapsack with very few distinct weights: the same capacity is reached along many paths
+    pub fn random_knapsack_eq(seed: u64, n: usize, rub: RubMode, dom: DomMode) -> Self {
+        let mut r = StdRng::seed_from_u64(seed ^ 0x5eed_0004);
+        let mut me = Self::blank(Family::Knapsack);
+        me.n = n;
+        me.m = 2;
+        let ws = [[1usize, 4], [2, 2], [1, 2], [3, 4]][r.gen_range(0..4)];
+        me.profit = (0..n).map(|_| r.gen_range(1..9)).collect();
+        me.weight = (0..n).map(|_| ws[r.gen_range(0..2)]).collect();
+        let tot: usize = me.weight.iter().sum();
+        me.root = r.gen_range(tot / 3..=(2 * tot / 3).max(tot / 3 + 1)) as u32;
+        me.b = me.root as usize + 1;
+        me.v0 = 0;
+        me.rub = rub;
+        me.slack = r.gen_range(0..3);
+        me.dom = dom;
+        me
+    }
     pub fn random_setpack(seed: u64, n: usize, rub: RubMode, dom: DomMode, long_arcs: bool) -> Self {
         let mut r = StdRng::seed_from_u64(seed ^ 0x5eed_0003);
         let mut me = Self::blank(Family::SetPack);
